@@ -4283,9 +4283,24 @@ impl Handler {
         };
         let effective_auth = refreshed_identity.as_ref().or(auth);
 
-        // Authorization check: if auth is provided, validate the statement
+        // A request may carry several statements (one per line). Every one of them is
+        // authorized, not just a request that happens to parse as a single statement:
+        // query_program() below executes the program line by line.
+        // The program is split exactly the way QueryJob::execute splits it (comment lines
+        // dropped, indented continuation lines joined, one statement per line); parsing
+        // the raw text as ONE statement would, e.g., read ".kg use b\n.kg create c" as
+        // just ".kg use b". Lines that do not parse make query_program() reject the
+        // whole program before anything runs.
+        let stmts: Vec<statement::Statement> = join_continuation_lines(&strip_comments(&program))
+            .lines()
+            .map(str::trim)
+            .filter(|l| !l.is_empty())
+            .filter_map(|l| statement::parse_statement(l).ok())
+            .collect();
+
+        // Authorization check: if auth is provided, validate every statement
         if let Some(identity) = effective_auth {
-            if let Ok(ref stmt) = statement::parse_statement(trimmed) {
+            for stmt in &stmts {
                 crate::auth::authorize_statement(&identity.role, stmt)?;
             }
         }
@@ -4309,7 +4324,7 @@ impl Handler {
                 ));
             }
         }
-        if let Ok(ref stmt) = statement::parse_statement(trimmed) {
+        for stmt in &stmts {
             match stmt {
                 statement::Statement::Meta(
                     statement::MetaCommand::KgUse(name)
@@ -4325,10 +4340,14 @@ impl Handler {
             }
         }
 
-        // Per-KG authorization: check if user has access to the target KG.
+        // Per-KG authorization: check if user has access to the KG each statement acts on.
         if let Some(identity) = effective_auth {
             if identity.role != crate::auth::Role::Admin {
-                if let Ok(ref stmt) = statement::parse_statement(trimmed) {
+                // `.kg use` / `.kg create` switch the KG for the statements after them.
+                let mut acting_kg: Option<String> = current_kg.map(str::to_string);
+                // KGs created earlier in this request: the creator is their owner.
+                let mut created_here: Vec<String> = Vec::new();
+                for stmt in &stmts {
                     // Determine which KG the operation targets
                     let target_kg = match stmt {
                         statement::Statement::Meta(
@@ -4352,17 +4371,30 @@ impl Handler {
                             | statement::MetaCommand::Status,
                         ) => None,
                         // All other statements operate on the current KG
-                        _ => current_kg,
+                        _ => acting_kg.as_deref(),
                     };
 
                     if let Some(kg) = target_kg {
-                        if let Some(kg_role) =
-                            self.get_kg_role_for_user(kg, &identity.username, &identity.role)
-                        {
-                            crate::auth::authorize_kg_operation(&kg_role, stmt)?;
-                        } else {
-                            return Err("Access denied".to_string());
+                        if !created_here.iter().any(|c| c == kg) {
+                            if let Some(kg_role) =
+                                self.get_kg_role_for_user(kg, &identity.username, &identity.role)
+                            {
+                                crate::auth::authorize_kg_operation(&kg_role, stmt)?;
+                            } else {
+                                return Err("Access denied".to_string());
+                            }
                         }
+                    }
+
+                    match stmt {
+                        statement::Statement::Meta(statement::MetaCommand::KgUse(name)) => {
+                            acting_kg = Some(name.clone());
+                        }
+                        statement::Statement::Meta(statement::MetaCommand::KgCreate(name)) => {
+                            created_here.push(name.clone());
+                            acting_kg = Some(name.clone());
+                        }
+                        _ => {}
                     }
                 }
             }
